@@ -508,6 +508,8 @@ def np_iscomplexobj(it, a):
             return S.kind_from_dtype(dt) == 'complex'
         if 'kind' in a.fields:
             return a.fields['kind'] == 'complex'
+        if a.tag == 'sparse':
+            return kind_of(a.fields['dense']) == 'complex'
         raise Unsupported('iscomplexobj of object')
     return kind_of(a) == 'complex'
 
@@ -1383,6 +1385,10 @@ def ns_attr(it, ns, name):
     if n == 'typing':
         return T.TypeTag('typing.' + name)
     if n == 'inspect':
+        if name == 'signature':
+            return T.Builtin('inspect.signature', lib_signature, wants_interp=True)
+        if name == 'Parameter':
+            return _INSPECT_PARAMETER
         raise Unsupported('inspect.' + name)
     if n == 'pathlib':
         if name == 'Path':
@@ -1398,6 +1404,45 @@ def ns_attr(it, ns, name):
 
 def _unsup(msg):
     raise Unsupported(msg)
+
+
+# inspect.signature of a function defined in the analysed sources: read off the def's argument list (bound methods drop the first parameter)
+_INSPECT_EMPTY = Obj(None, {'name': 'empty'}, tag='inspect_const')
+_INSPECT_PARAMETER = Obj(None, {}, tag='inspect_Parameter')
+_PARAM_KINDS = ('POSITIONAL_ONLY', 'POSITIONAL_OR_KEYWORD', 'VAR_POSITIONAL', 'KEYWORD_ONLY', 'VAR_KEYWORD')
+
+
+def lib_signature(it, fn):
+    T = I()
+    bound = isinstance(fn, T.BoundMethod)
+    f = fn.fn if bound else fn
+    if not isinstance(f, T.Closure):
+        raise Unsupported('inspect.signature of a non-source function')
+    a = f.node.args
+    params = []
+    pos = [(x, 'POSITIONAL_ONLY') for x in a.posonlyargs] + [(x, 'POSITIONAL_OR_KEYWORD') for x in a.args]
+    ndef = len(a.defaults)
+    for k, (x, kind) in enumerate(pos):
+        has_default = k >= len(pos) - ndef
+        params.append((x.arg, kind, has_default))
+    if bound and params:
+        params = params[1:]
+    if a.vararg:
+        params.append((a.vararg.arg, 'VAR_POSITIONAL', False))
+    for x, d in zip(a.kwonlyargs, a.kw_defaults):
+        params.append((x.arg, 'KEYWORD_ONLY', d is not None))
+    if a.kwarg:
+        params.append((a.kwarg.arg, 'VAR_KEYWORD', False))
+    pd = {}
+    for nm, kind, has_default in params:
+        pd[nm] = Obj(None, {'name': nm, 'kind': kind, 'default': Obj(None, {'name': 'some default'}, tag='inspect_const') if has_default else _INSPECT_EMPTY},
+                     tag='inspect_param')
+    return Obj(None, {'parameters': pd}, tag='inspect_signature')
+
+
+S.OBJ_ATTR['inspect_signature'] = lambda it, o, attr: o.fields['parameters'] if attr == 'parameters' else NotImplemented
+S.OBJ_ATTR['inspect_param'] = lambda it, o, attr: o.fields[attr] if attr in ('name', 'kind', 'default') else NotImplemented
+S.OBJ_ATTR['inspect_Parameter'] = lambda it, o, attr: (attr if attr in _PARAM_KINDS else _INSPECT_EMPTY if attr == 'empty' else NotImplemented)
 
 
 def _ufunc_attr(it, o, attr):
@@ -1820,10 +1865,28 @@ def spla_solve_triangular(it, T, b, trans=0, lower=False, unit_diagonal=False, *
     return MA.wrap(op.inv() @ bm, 'complex' if 'complex' in (T.fields['kind'], b.fields['kind']) else 'real')
 
 
+A_matmul = A.matmul
+
+
 @np_fn('inv', ns='np.linalg')
 def la_inv(it, A):
     if _is_mat(A):
         return MA.wrap(MA.unwrap(A).inv(), A.fields['kind'])
+    if isinstance(A, CArr) and A.ndim == 2 and A.shape[0] == A.shape[1]:
+        # contract of the inverse on a concrete size: a fresh matrix B with A B = I and B A = I (such a B exists iff A is non-singular,
+        # which is the caller's precondition; the vacuity check of the harness notices an impossible assumption)
+        n = A.shape[0]
+        cx = kind_of(A) == 'complex'
+        B = np.empty((n, n), dtype=object)
+        for i in range(n):
+            for j in range(n):
+                B[i, j] = Cx(it.ctx.fresh('inv_r', 'real'), it.ctx.fresh('inv_i', 'real')) if cx else it.ctx.fresh('inv', 'real')
+        Bc = CArr(B, 'complex' if cx else 'real')
+        for P_ in (A_matmul(it.ctx, A, Bc), A_matmul(it.ctx, Bc, A)):
+            for i in range(n):
+                for j in range(n):
+                    it.ctx.assume(V.z(V.cmp('==', P_.data[i, j], 1 if i == j else 0)))
+        return Bc
     raise Unsupported('np.linalg.inv on index-level arrays')
 
 
